@@ -87,31 +87,31 @@ PROPS["C06"] = {
 PROPS["C13"] = {
     "rules": [rules_handles.rule_F6a, rules_handles.rule_F6b, rules_handles.rule_F6c, rules_handles.rule_F6d, rules_handles.rule_sdid_layout],
     "level": "other",
-    "explanation": "TODO",
-    "rule_text": "TODO",
+    "explanation": "Decides structural necessary conditions of handle safety: (F6a) the result of every id->object lookup (HAatom_object, HAremove_atom, SDIhandle_from_id, SDIget_var, ...) is tested against NULL before any dereference on every path (ids issued or recorded by the library in the same function are exempt by provenance; callee summaries 'fails when this argument is NULL' are computed); (F6b) where a public function uses a user-supplied id as a typed record, HAatom_group(id) == the record's group dominates the use (armed for the layers that follow the convention and for the H/bitio/AN functions shown to misbehave; 13 known findings); (F6c) the atom id/object cache is written only by atom.c's functions and purged on removal; (F6d) every function that registers an access id increments file_rec->attach exactly once on every non-failing path, every endaccess decrements once, and Hclose tears down only after the attach test; (SDID) every constructor of an SD identifier places the file slot and type where SDIhandle_from_id decodes them. Not decided: absence of aliasing over whole histories (id counter wrap, hash chains), state left after complete teardown.",
+    "rule_text": 'instances = lookup results held in variables, public functions using a user id as a typed record, atom-cache writers, AID creators/endaccess functions, SD id constructors',
     "trusted": [CLANG, CDB],
     "assumptions": [],
-    "level_text": "TODO", "level_note": "TODO", "technique": "TODO",
+    "level_text": 'All-paths lookup-validation, kind-check, accounting and id-codec agreement checks over ~590 sites; decided for every path and entry point instead of the handful of stale-id cases tests try.', "level_note": 'Trusted: clang front end/CFG, build flags, the record<->group table. F6b candidates whose wrong-kind replay ended in a failure return are listed in rules/f6b_unconfirmed.txt and not armed.', "technique": 'typestate dataflow (null-before-use, kind-before-cast, exact-once accounting) over clang CFGs',
 }
 
 PROPS["C14"] = {
     "rules": [rules_access.rule_F5A, rules_access.rule_F5B, rules_coders.rule_coder_flush],
     "level": "other",
-    "explanation": "TODO",
-    "rule_text": "TODO",
+    "explanation": "Decides the structural core of 'read-only access never alters a file and write requests are refused': one fixpoint over the library computes, for every function, whether a path reaches a mutation without a write-permission proof. Mutations are irreversible effects (HP_write, fwrite/write, a writable fopen/open) and promises to write (dirty marks: vg/vs marked, GR *_modified, NC_HDIRTY/NDIRTY/INDEF, filerec/ddblock dirty). Proofs are passed tests of the handle's permission (file/access record access & DFACC_WRITE with a mask that excludes DFACC_READ, vg/vs access == 'w', NC flags & NC_RDWR, hdf_mode != DFACC_RDONLY, page-buffer mode), a set mark (inductive), or the success of a callee verified to be self-guarding for the constant mode it is called with (Hstartaccess, Vattach, VSattach, Hopen are analysed per mode). Effects need the proof first; marks are discharged if the call then fails or a proof follows before a successful return. (F5A) every writable open is covered; (F5B) every public function either has the proof or is reported (derived reports are attributed to the public function they run through); (FLUSH, shared with C05) a stateful coder never flushes decoder state through a writable handle. Not decided: byte-identity itself (follows from the open-mode flow plus the OS), external files' contents.",
+    "rule_text": 'instances = functions opening files for writing, mode-dependent self-guarding callees, public functions that can reach a mutation (~230), listed site exceptions (each re-verified where possible)',
     "trusted": [CLANG, CDB],
     "assumptions": [],
-    "level_text": "TODO", "level_note": "TODO", "technique": "TODO",
+    "level_text": "Interprocedural guard-reachability from every public entry point to every mutation; decides 'refused on a read-only handle' for the whole API surface, which the suite probes for a few calls only.", "level_note": 'Trusted: clang front end/CFG, build flags, OS semantics of fopen modes, the frozen tables of marks and guard idioms (a vanished slot field makes the check exit 2).', "technique": 'interprocedural guard-reachability fixpoint with path-sensitive summaries over clang CFGs',
 }
 
 PROPS["C05"] = {
     "rules": [rules_coders.rule_comp_header, rules_coders.rule_coder_dispatch, rules_coders.rule_coder_flush, rules_coders.rule_stream_seek],
     "level": "other",
-    "explanation": "TODO",
-    "rule_text": "TODO",
+    "explanation": "Decides structural necessary conditions of lossless coding: (F1c) for every coder the bytes written by HCPencode_header, read by HCPdecode_header and reserved by HCPquery_encode_header agree field by field and with the format (NBIT 16, SKPHUFF 8, DEFLATE 2, SZIP 14 bytes); (F7e/F7a) HCIinit_coder wires every coder to a function table, rejects unknown codes, and every coder/model table slot that hcomp.c dispatches without a NULL test is a function; (FLUSH) a stateful coder's flush routine (one that writes from state the decoder also sets) is only called under a 'last transfer was a write' indicator; (SEEK) stream coders re-initialise on a backward seek before decoding forward. Not decided: the run/mix, splay-tree, zlib and n-bit mask state machines and the bit-buffer arithmetic themselves.",
+    "rule_text": 'instances = coder arms of the header codec, arms of HCIinit_coder, dispatch sites through coder_funcs/model_funcs, flush call sites outside the write path, seek slots of stream coders',
     "trusted": [CLANG, CDB],
     "assumptions": [],
-    "level_text": "TODO", "level_note": "TODO", "technique": "TODO",
+    "level_text": 'Codec-agreement, dispatch-exhaustiveness and flush-discipline checks over all coders; they decide for every coder and path what the round-trip tests sample for a few buffers.', "level_note": 'Trusted: clang front end, build flags, the per-coder header sizes of the format (SPEC_CODER_BYTES).', "technique": 'AST codec-layout comparison + dispatch-table resolution + guard-dominance dataflow',
 }
 
 PENDING = {}
